@@ -434,6 +434,54 @@ fn run(name: &str, j: &J) -> Result<bool, String> {
             }
             Ok(ok)
         }
+        // C15: name lookup through the real Hierarchy: exact path wins, otherwise the single entry agreeing on every
+        // trailing component both have, otherwise nothing
+        "c15_lookup_case" | "c15_lookup_search" => {
+            use qrlew::hierarchy::Hierarchy;
+            fn agree(a: &[String], b: &[String]) -> bool { a.iter().rev().zip(b.iter().rev()).all(|(x, y)| x == y) }
+            fn check(entries: &[Vec<String>], path: &[String]) -> Option<String> {
+                let h: Hierarchy<usize> = entries.iter().enumerate().map(|(i, p)| (p.clone(), i)).collect();
+                // entries may repeat a path: the map keeps the last one
+                let mut uniq: Vec<(Vec<String>, usize)> = vec![];
+                for (i, p) in entries.iter().enumerate() { if let Some(e) = uniq.iter_mut().find(|(q, _)| q == p) { e.1 = i; } else { uniq.push((p.clone(), i)); } }
+                let expected: Option<usize> = match uniq.iter().find(|(q, _)| q.as_slice() == path) {
+                    Some((_, i)) => Some(*i),
+                    None => { let c: Vec<usize> = uniq.iter().filter(|(q, _)| agree(path, q)).map(|(_, i)| *i).collect(); if c.len() == 1 { Some(c[0]) } else { None } }
+                };
+                let got = h.get(path).copied();
+                let got_kv = h.get_key_value(path).map(|(_, v)| *v);
+                if got != expected || got_kv != expected { Some(format!("entries {:?}, lookup {:?}: get = {:?}, get_key_value = {:?}, expected {:?}", entries, path, got, got_kv, expected)) } else { None }
+            }
+            let parse = |v: &J| -> Vec<String> { v.as_array().map(|a| a.iter().map(|s| s.as_str().unwrap().to_string()).collect()).unwrap_or_default() };
+            if name == "c15_lookup_case" {
+                let entries: Vec<Vec<String>> = j["entries"].as_array().unwrap().iter().map(|e| parse(e)).collect();
+                let r = check(&entries, &parse(&j["path"]));
+                if let Some(m) = &r { println!("  {}", m); }
+                return Ok(r.is_none());
+            }
+            // search: up to 5 entries among paths of length 1..=3 over {a, b}, ending in the same component or not
+            let mut paths: Vec<Vec<String>> = vec![];
+            for l in 1..=3usize { for m in 0..(1usize << l) { paths.push((0..l).map(|k| if (m >> k) & 1 == 1 { "a".to_string() } else { "b".to_string() }).collect()); } }
+            let n = paths.len();
+            for size in 1..=5usize {
+                let mut idx: Vec<usize> = (0..size).collect();
+                loop {
+                    let entries: Vec<Vec<String>> = idx.iter().map(|i| paths[*i].clone()).collect();
+                    for q in &paths {
+                        if let Some(m) = check(&entries, q) {
+                            println!("  {}", m);
+                            println!("QX-WITNESS {}", serde_json::json!({"entries": entries, "path": q}));
+                            return Ok(false);
+                        }
+                    }
+                    // next combination
+                    let mut k = size; let mut done = true;
+                    while k > 0 { k -= 1; if idx[k] < n - (size - k) { idx[k] += 1; for t in k + 1..size { idx[t] = idx[t - 1] + 1; } done = false; break; } }
+                    if done { break; }
+                }
+            }
+            Ok(true)
+        }
         _ => Err(format!("unknown replay `{}`", name)),
     }
 }
